@@ -102,6 +102,55 @@ theorem getLast?_eq_topLimb (l : List Nat) (hne : l ≠ []) : l.getLast? = some 
   | some x => rfl
 
 
+theorem drop_eq_topLimb (l : List Nat) (n : Nat) (h : l.length = n + 1) : l.drop n = [topLimb l] := by
+  have hne : l ≠ [] := by intro h0; rw [h0] at h; simp at h
+  have h1 := List.drop_length_sub_one hne
+  rw [h, Nat.add_sub_cancel] at h1
+  rw [h1]; unfold topLimb; rw [List.getLast?_eq_some_getLast hne]; rfl
+
+theorem val_take_top (l : List Nat) (n : Nat) (h : l.length = n + 1) :
+    val l = val (l.take n) + B ^ n * topLimb l := by
+  rw [val_take_drop l n (by omega), drop_eq_topLimb l n h]; simp
+
+theorem two_pow_lt_B {k : Nat} (hk : k < 64) : 2 ^ k < B := by
+  unfold B; exact Nat.pow_lt_pow_right (by norm_num) hk
+
+theorem shiftUp_spec (up : List Nat) (k : Nat) (hl : Limbs up) (hne : up ≠ []) (ht : up.getLast? ≠ some 0)
+    (hk64 : k < 64) :
+    Limbs (shiftUp up k).1 ∧ (shiftUp up k).1.getLast? ≠ some 0 ∧
+    (shiftUp up k).1.length = up.length + (shiftUp up k).2 ∧ (shiftUp up k).2 ≤ 1 ∧
+    val (shiftUp up k).1 = val up * 2 ^ k := by
+  have hn : 0 < up.length := List.length_pos_of_ne_nil hne
+  have hlt : val up * 2 ^ k < B ^ (up.length + 1) := by
+    have h1 := val_lt up hl
+    have h2 := two_pow_lt_B hk64
+    rw [pow_succ]; exact Nat.mul_lt_mul'' h1 h2
+  have hge : B ^ (up.length - 1) ≤ val up * 2 ^ k := by
+    have h1 := val_ge_of_top up hne ht
+    have h2 : 1 ≤ 2 ^ k := Nat.one_le_two_pow
+    nlinarith
+  have hv := val_toLimbs_of_lt hlt
+  have hlen := toLimbs_length (up.length + 1) (val up * 2 ^ k)
+  have hlim := Limbs_toLimbs (up.length + 1) (val up * 2 ^ k)
+  have hsplit := val_take_top _ _ hlen
+  unfold shiftUp
+  simp only
+  generalize toLimbs (up.length + 1) (val up * 2 ^ k) = full at *
+  by_cases h0 : topLimb full = 0
+  · simp only [h0, ne_eq, not_true_eq_false, if_false, Nat.add_zero]
+    have hval : val (full.take up.length) = val up * 2 ^ k := by rw [← hv, hsplit, h0]; simp
+    have hl2 : (full.take up.length).length = up.length := by rw [List.length_take, hlen]; omega
+    refine ⟨Limbs_take hlim _, ?_, hl2, by omega, hval⟩
+    apply top_ne_zero_of_val_ge _ (Limbs_take hlim _)
+    · intro hnil; rw [hnil] at hl2; simp at hl2; omega
+    · rw [hl2, hval]; exact hge
+  · simp only [h0, ne_eq, not_false_eq_true, if_true]
+    have htk : full.take (up.length + 1) = full := List.take_of_length_le (by omega)
+    rw [htk]
+    refine ⟨hlim, ?_, hlen, by omega, hv⟩
+    have hfne : full ≠ [] := by intro hnil; rw [hnil] at hlen; simp at hlen
+    rw [getLast?_eq_topLimb full hfne]; simpa using h0
+
 /-! ### abstraction -/
 
 /-- the rational value of an mpf: ± val d · B^(exp - |size|) -/
@@ -146,6 +195,87 @@ theorem rel_err_scale (R E : ℤ) (s : ℚ) (hs : 0 < s) (p : ℕ) (h : |R - E| 
   rw [div_mul_eq_mul_div, lt_div_iff₀ hp]
   nlinarith
 
+
+theorem toQ_def' (u : F) :
+    toQ u = (if u.size ≥ 0 then 1 else -1) * (val u.d : ℚ) * (B : ℚ) ^ (u.exp - (u.d.length : ℤ)) := by
+  unfold toQ
+  by_cases h : u.size < 0
+  · rw [if_pos h, if_neg (by omega)]
+  · rw [if_neg h, if_pos (by omega)]
+
+theorem Bzpow_add_nat (a : ℤ) (m : ℕ) : (B : ℚ) ^ (a + (m : ℤ)) = (B : ℚ) ^ a * 2 ^ (64 * m) := by
+  rw [zpow_add₀ Bq_ne, zpow_natCast, Bq_eq, ← pow_mul]
+
+theorem Bzpow_sub_nat (a : ℤ) (m : ℕ) : (B : ℚ) ^ (a - (m : ℤ)) = (B : ℚ) ^ a / 2 ^ (64 * m) := by
+  rw [zpow_sub₀ Bq_ne, zpow_natCast, Bq_eq, ← pow_mul]
+
+theorem two_pow_split (e : ℕ) : (2 : ℚ) ^ e = 2 ^ (e % 64) * 2 ^ (64 * (e / 64)) := by
+  rw [← pow_add]; congr 1; omega
+
+/-! ### integer and fraction part of the magnitude -/
+
+/-- exponent ≤ 0: the magnitude lies strictly between 0 and 1 -/
+theorem mag_lt_one (d : List Nat) (hl : Limbs d) (hne : d ≠ []) (ht : d.getLast? ≠ some 0) (e : ℤ) (he : e ≤ 0) :
+    0 < (val d : ℚ) * (B : ℚ) ^ (e - (d.length : ℤ)) ∧ (val d : ℚ) * (B : ℚ) ^ (e - (d.length : ℤ)) < 1 := by
+  have hpos : (0 : ℚ) < val d := by exact_mod_cast val_pos_of_top hne ht
+  refine ⟨mul_pos hpos (zpow_pos Bq_pos _), ?_⟩
+  obtain ⟨k, hk⟩ : ∃ k : ℕ, e - (d.length : ℤ) = -((d.length + k : ℕ) : ℤ) := ⟨(-e).toNat, by push_cast; omega⟩
+  rw [hk, zpow_neg, zpow_natCast, ← div_eq_mul_inv, div_lt_one (pow_pos Bq_pos _)]
+  have h1 : val d < B ^ d.length := val_lt d hl
+  have h2 : B ^ d.length ≤ B ^ (d.length + k) := Nat.pow_le_pow_right B_pos (by omega)
+  exact_mod_cast lt_of_lt_of_le h1 h2
+
+/-- 0 < e < len: integer part = the top e limbs, fraction = the low limbs / B^k -/
+theorem mag_split (d : List Nat) (e : ℕ) (he : e ≤ d.length) :
+    (val d : ℚ) * (B : ℚ) ^ ((e : ℤ) - (d.length : ℤ)) =
+      (val (top e d) : ℚ) + (val (d.take (d.length - e)) : ℚ) / (B : ℚ) ^ (d.length - e) := by
+  have hk : (e : ℤ) - (d.length : ℤ) = -((d.length - e : ℕ) : ℤ) := by push_cast; omega
+  rw [hk, zpow_neg, zpow_natCast]
+  have hv : (val d : ℚ) = (val (d.take (d.length - e)) : ℚ) + (B : ℚ) ^ (d.length - e) * (val (top e d) : ℚ) := by
+    exact_mod_cast val_top e d
+  have hB : (B : ℚ) ^ (d.length - e) ≠ 0 := pow_ne_zero _ Bq_ne
+  rw [hv]; field_simp; ring
+
+/-- len ≤ e: the value is the natural number val d · B^(e - len) -/
+theorem mag_int (d : List Nat) (e : ℤ) (he : (d.length : ℤ) ≤ e) :
+    (val d : ℚ) * (B : ℚ) ^ (e - (d.length : ℤ)) = ((val d * B ^ (e - (d.length : ℤ)).toNat : ℕ) : ℚ) := by
+  have : e - (d.length : ℤ) = (((e - (d.length : ℤ)).toNat : ℕ) : ℤ) := by omega
+  rw [this, zpow_natCast]; push_cast; simp
+
+theorem any_ne_zero_iff (l : List Nat) : l.any (· != 0) = true ↔ val l ≠ 0 := by
+  induction l with
+  | nil => simp
+  | cons x xs ih =>
+    simp only [List.any_cons, Bool.or_eq_true, ih, val_cons]
+    have := B_pos
+    constructor
+    · rintro (h | h)
+      · have : x ≠ 0 := by simpa using h
+        omega
+      · have : 0 < val xs := Nat.pos_of_ne_zero h
+        nlinarith
+    · intro h
+      by_cases hx : x = 0
+      · right; intro h0; rw [hx, h0] at h; simp at h
+      · left; simpa using hx
+
+theorem all_eq_zero_iff (l : List Nat) : l.all (· == 0) = true ↔ val l = 0 := by
+  induction l with
+  | nil => simp
+  | cons x xs ih =>
+    simp only [List.all_cons, Bool.and_eq_true, ih, val_cons]
+    have := B_pos
+    constructor
+    · rintro ⟨h1, h2⟩
+      have : x = 0 := by simpa using h1
+      rw [this, h2]; simp
+    · intro h
+      have hx : x = 0 := by omega
+      have hxs : B * val xs = 0 := by omega
+      refine ⟨by simpa using hx, ?_⟩
+      rcases Nat.mul_eq_zero.mp hxs with h' | h'
+      · omega
+      · exact h'
 
 /-! ### format rules of constructed results -/
 
@@ -201,5 +331,119 @@ theorem natLimbs_spec (v : Nat) :
         · have hne : natLimbs (v / B) ≠ [] := by
             intro hnil; rw [hnil] at i1; simp at i1; exact hq i1.symm
           rw [List.getLast?_cons_of_ne_nil hne]; exact i3
+
+/-! ### floor / ceil / trunc / integer_p: decomposition into integer and fraction part -/
+
+def sg (u : F) : ℚ := if u.size < 0 then -1 else 1
+
+theorem toQ_sg (u : F) : toQ u = sg u * ((val u.d : ℚ) * (B : ℚ) ^ (u.exp - (u.d.length : ℤ))) := by
+  unfold toQ sg; ring
+
+theorem toQ_mk' (p : Nat) (c : Prop) [Decidable c] (e : Int) (l : List Nat) (k : Nat) (hk : l.length = k) :
+    toQ ⟨p, if c then (k : Int) else -(k : Int), e, l⟩ =
+      (if c then 1 else -1) * (val l : ℚ) * (B : ℚ) ^ (e - (k : ℤ)) := by
+  subst hk; exact toQ_mk p c e l
+
+theorem round_decomp (prec : Nat) (u : F) (hu : OpWF u) (h0 : u.size ≠ 0)
+    (hfit : min u.d.length u.exp.toNat ≤ prec + 1) (dir : ℤ) (hdir : dir = 1 ∨ dir = -1) :
+    ∃ (I : ℕ) (f : ℚ), 0 ≤ f ∧ f < 1 ∧ toQ u = sg u * (I + f) ∧
+      toQ (trunc prec u) = sg u * I ∧
+      toQ (ceilOrFloor prec u dir) = sg u * (I + if ((u.size < 0) ↔ (dir < 0)) ∧ f ≠ 0 then 1 else 0) ∧
+      (integer_p u = true ↔ f = 0) := by
+  obtain ⟨hl, hlen, ht, _⟩ := hu
+  have hne : u.d ≠ [] := by intro h; rw [h] at hlen; simp at hlen; omega
+  have hsz : (if u.size ≥ 0 then (1 : ℚ) else -1) = sg u := by
+    unfold sg; by_cases h : u.size < 0
+    · rw [if_pos h, if_neg (by omega)]
+    · rw [if_neg h, if_pos (by omega)]
+  rcases le_or_gt u.exp 0 with he | he
+  · -- only a fraction
+    obtain ⟨m1, m2⟩ := mag_lt_one u.d hl hne ht u.exp he
+    have hf : (val u.d : ℚ) * (B : ℚ) ^ (u.exp - (u.d.length : ℤ)) ≠ 0 := ne_of_gt m1
+    refine ⟨0, _, le_of_lt m1, m2, by rw [toQ_sg]; simp, ?_, ?_, ?_⟩
+    · unfold trunc; rw [if_pos (Or.inr he), toQ_zero]; simp
+    · unfold ceilOrFloor; rw [if_neg h0, if_pos he]
+      by_cases hs : u.size < 0 <;> rcases hdir with hd | hd <;> subst hd <;> simp [hs, sg, toQ, zero, hf, val]
+    · unfold integer_p; rw [if_neg h0, if_pos he]; simp [hf]
+  · -- exp > 0
+    obtain ⟨e, hee⟩ : ∃ e : ℕ, u.exp = (e : ℤ) := ⟨u.exp.toNat, by omega⟩
+    have hepos : 0 < e := by omega
+    have hnt : ¬ (u.size = 0 ∨ u.exp ≤ 0) := by omega
+    have hne0 : ¬ u.exp ≤ 0 := by omega
+    have htn : u.exp.toNat = e := by omega
+    rw [htn] at hfit
+    rcases lt_or_ge e u.d.length with hlt | hge
+    · -- integer part = top e limbs
+      have hmin : min (min u.d.length e) (prec + 1) = e := by omega
+      have hsplit := mag_split u.d e (le_of_lt hlt)
+      have hlo := val_take_lt hl (u.d.length - e)
+      have hBk : (0 : ℚ) < (B : ℚ) ^ (u.d.length - e) := pow_pos Bq_pos _
+      have htl : (top e u.d).length = e := by rw [top_length]; omega
+      refine ⟨val (top e u.d), (val (u.d.take (u.d.length - e)) : ℚ) / (B : ℚ) ^ (u.d.length - e),
+        by positivity, ?_, ?_, ?_, ?_, ?_⟩
+      · rw [div_lt_one hBk]; exact_mod_cast hlo
+      · rw [toQ_sg, hee, hsplit]
+      · unfold trunc; rw [if_neg hnt]; simp only [htn, hmin]
+        rw [toQ_mk' _ _ _ _ _ htl, hsz, hee]; simp
+      · unfold ceilOrFloor; rw [if_neg h0, if_neg hne0]; simp only [htn, hmin]
+        have hcond : ((decide (u.size < 0) == decide (dir < 0)) = true ∧
+              ((List.take (u.d.length - e) u.d).any fun x => x != 0) = true) ↔
+            ((u.size < 0 ↔ dir < 0) ∧
+              (val (List.take (u.d.length - e) u.d) : ℚ) / (B : ℚ) ^ (u.d.length - e) ≠ 0) := by
+          rw [any_ne_zero_iff]
+          have h1 : ((decide (u.size < 0) == decide (dir < 0)) = true) ↔ (u.size < 0 ↔ dir < 0) := by
+            by_cases a : u.size < 0 <;> by_cases b : dir < 0 <;> simp [a, b]
+          have h2 : val (List.take (u.d.length - e) u.d) ≠ 0 ↔
+              (val (List.take (u.d.length - e) u.d) : ℚ) / (B : ℚ) ^ (u.d.length - e) ≠ 0 := by
+            rw [Ne, Ne, div_eq_zero_iff]; simp [ne_of_gt hBk]
+          rw [h1, h2]
+        by_cases hc : ((u.size < 0 ↔ dir < 0) ∧
+              (val (List.take (u.d.length - e) u.d) : ℚ) / (B : ℚ) ^ (u.d.length - e) ≠ 0)
+        · rw [if_pos (hcond.mpr hc), if_pos hc]
+          have hhi : val (top e u.d) < B ^ e := by
+            have := val_lt _ (Limbs_top hl e); rwa [htl] at this
+          by_cases hcy : (val (top e u.d) + 1) / B ^ e ≠ 0
+          · rw [if_pos hcy]
+            have hs : val (top e u.d) + 1 = B ^ e := by
+              have : B ^ e ≤ val (top e u.d) + 1 := by
+                by_contra hlt'; exact hcy (Nat.div_eq_of_lt (by omega))
+              omega
+            have h1l : ([1] : List Nat).length = 1 := rfl
+            rw [toQ_mk' _ _ _ _ _ h1l, hsz, hee]
+            have : ((val (top e u.d) : ℚ) + 1) = (B : ℚ) ^ e := by exact_mod_cast hs
+            rw [this, show ((e : ℤ) + 1 - ((1 : ℕ) : ℤ)) = (e : ℤ) by push_cast; ring, zpow_natCast]
+            simp [val]
+          · rw [if_neg hcy]
+            have hs : val (top e u.d) + 1 < B ^ e := by
+              have := (Nat.div_eq_zero_iff.mp (not_not.mp hcy)); have := Bpow_pos e; omega
+            rw [toQ_mk' _ _ _ _ _ (toLimbs_length e _), hsz, hee, val_toLimbs_of_lt hs]
+            simp
+        · rw [if_neg (fun h => hc (hcond.mp h)), if_neg hc]
+          rw [toQ_mk' _ _ _ _ _ htl, hsz, hee]; simp
+      · unfold integer_p; rw [if_neg h0, if_neg hne0]; simp only [htn]
+        rw [all_eq_zero_iff, div_eq_zero_iff]; simp [ne_of_gt hBk]
+    · -- the whole operand is integer part
+      have hmin : min (min u.d.length e) (prec + 1) = u.d.length := by omega
+      have hint := mag_int u.d u.exp (by omega)
+      refine ⟨val u.d * B ^ (u.exp - (u.d.length : ℤ)).toNat, 0, le_refl _, by norm_num, ?_, ?_, ?_, ?_⟩
+      · rw [toQ_sg, hint]; simp
+      · unfold trunc; rw [if_neg hnt]; simp only [htn, hmin, top_of_le (le_refl _)]
+        rw [toQ_mk, hsz, mul_assoc, hint]
+      · unfold ceilOrFloor; rw [if_neg h0, if_neg hne0]; simp only [htn, hmin, top_of_le (le_refl _)]
+        simp only [Nat.sub_self, List.take_zero, List.any_nil, Bool.false_eq_true, and_false, if_false]
+        rw [toQ_mk, hsz, mul_assoc, hint]; simp
+      · unfold integer_p; rw [if_neg h0, if_neg hne0]; simp only [htn]
+        rw [Nat.sub_eq_zero_of_le hge]; simp
+
+theorem floor_nat_add (I : ℕ) (f : ℚ) (h0 : 0 ≤ f) (h1 : f < 1) : ⌊(I : ℚ) + f⌋ = (I : ℤ) := by
+  rw [Int.floor_eq_iff]; push_cast; constructor <;> linarith
+
+theorem ceil_nat_add (I : ℕ) (f : ℚ) (h0 : 0 ≤ f) (h1 : f < 1) :
+    ⌈(I : ℚ) + f⌉ = (I : ℤ) + if f ≠ 0 then 1 else 0 := by
+  by_cases hf : f = 0
+  · subst hf; simp
+  · rw [if_pos hf, Int.ceil_eq_iff]; push_cast
+    have : 0 < f := lt_of_le_of_ne h0 (Ne.symm hf)
+    constructor <;> linarith
 
 end Mpir.Mpf
